@@ -54,6 +54,9 @@ type Check struct {
 
 func (c *Check) Ob(rule, instance string, pos token.Pos, ok bool, detail string) {
 	c.Obs = append(c.Obs, Obligation{Rule: c.ID + "-" + rule, Instance: instance, Pos: c.L.Pos(pos), OK: ok, Detail: detail})
+	if os.Getenv("AKVERIF_DEBUG") != "" {
+		fmt.Fprintf(os.Stderr, "OB %v %s-%s | %s | %s\n", ok, c.ID, rule, instance, c.L.Pos(pos))
+	}
 }
 
 func (c *Check) Info(rule, instance string, pos token.Pos, detail string) {
